@@ -2,6 +2,7 @@
 package main
 
 import (
+	"context"
 	"fmt"
 	"math/rand"
 
@@ -28,7 +29,7 @@ func main() {
 			keys = append(keys, k)
 			m0.Insert(util.Path(k), &val{[]byte{0xa1, byte('a' + i%26)}})
 		}
-		m0.SaveChanges(nil, base, false)
+		m0.SaveChanges(context.Background(), base, false)
 		root := m0.GetRoot()
 		del := r.Perm(n)[:2+r.Intn(4)]
 		run := func(order []int) (string, int) {
